@@ -164,3 +164,15 @@ def shrink_candidates(line):
                     q[2] = str(max(0, int(p[2]) - cut // 2))
                 c.append(" ".join(t[:i] + [":".join(q)] + t[i + 1:]))
     return c[:60]
+
+
+def semantic(case, obs, is_model):
+    """Ok / Err, decoder state, total size and bytes -- not slice pointers, anchors, cache."""
+    out = []
+    for b in canon(obs, is_model):
+        if b == [99]:
+            out.append(b)
+            break
+        o = b[2]
+        out.append([b[0], b[1], None if o is None else [o[0][0], o[0][2], o[2]]])
+    return out
